@@ -29,7 +29,7 @@ package preprocessor
 //@   attr assume-pre NormalizeURL:non-nil
 //@   requires seed != nil && config.config != nil && models.ErrNotASeed != nil && ErrUnsupportedScheme != nil && ErrUnsupportedHost != nil
 //@   requires config.config.UseHQ ==> hq.globalHQ != nil && hq.globalHQ.client != nil
-//@   modifies models.Item::*, models.URL::*, elem::*models.Item, mapof(goada.hrefTable()), mapof(seencheck.store), mapof(gocrawlhq.hqNew), atomic(*), seencheck.gNode, seencheck.gKey, seencheck.gType, seencheck.gHad, seencheck.gOld
+//@   modifies models.Item::*, models.URL::*, elem::*models.Item, mapof(goada.hrefTable()), mapof(seencheck.store), mapof(gocrawlhq.hqNew), atomic(*seencheck.globalSeencheck.Count), seencheck.gNode, seencheck.gKey, seencheck.gType, seencheck.gHad, seencheck.gOld
 //@   local handled int = -1
 //@   after RemoveChild(GetParent())#1: handled = rangeindex
 //@   after RemoveChild(GetParent())#2: handled = rangeindex
@@ -37,12 +37,13 @@ package preprocessor
 //@   after RemoveChild(GetParent())#4: handled = rangeindex
 //@   loop range invariant [gate] rangeindex >= 0 && handled != rangeindex ==> inScope(items[rangeindex]) // C05: never sends a request for a URL outside the operator's scope ... applies equally to seeds, redirect targets and embedded assets
 //@   assert SetRequest(GetURL())#1: [own-request] http.reqTarget(req) == models.urlKey(items[i].url) // C05: the request attached to a node is built from that node's own canonical URL
-//@   loop range invariant [cfg] config.config != nil && seed != nil && models.ErrNotASeed != nil && ErrUnsupportedScheme != nil && ErrUnsupportedHost != nil && (config.config.UseHQ ==> hq.globalHQ != nil && hq.globalHQ.client != nil)
+//@   loop range invariant [cfg] seencheck.globalSeencheck == old(seencheck.globalSeencheck) && seencheck.globalSeencheck.Count == old(seencheck.globalSeencheck.Count) && config.config != nil && seed != nil && models.ErrNotASeed != nil && ErrUnsupportedScheme != nil && ErrUnsupportedHost != nil && (config.config.UseHQ ==> hq.globalHQ != nil && hq.globalHQ.client != nil)
 
 // Worker gauge discipline (C17): the worker contributes +1 to the PreprocessorRoutines gauge
 // while it is alive and its net contribution is 0 once it has returned, on every exit path.
 //@ func (*preprocessor).worker
 //@   property C17
+//@   attr assume-pre preprocess
 //@   mode math
 //@   attr noreach stats.PreprocessorRoutinesIncr,stats.PreprocessorRoutinesDecr
 //@   requires stats.globalStats != nil && stats.globalStats.PreprocessorRoutines != nil
